@@ -53,7 +53,7 @@ def run(sid, prop, tier="quick"):
         rc, out = sh(["python3-vt", "/verif/vcheck.py", prop, "--tier", tier], cwd="/verif", timeout=4 * 3600)
     finally:
         sh(["git", "-C", "/repo", "checkout", "--", "."])
-    lines = [l for l in out.splitlines() if l.startswith(("VIOLATION", "KNOWN-FINDING", "INCONCLUSIVE", "NON-REPRODUCING", "[" + prop)) or "violated" in l or " failed " in l]
+    lines = [l for l in out.splitlines() if l.startswith(("VIOLATION", "KNOWN-FINDING", "INCONCLUSIVE", "NON-REPRODUCING", "UNEXPLORED", "[" + prop)) or "violated" in l or " failed " in l]
     print("\n".join(l[:300] for l in lines[-25:]))
     print("exit", rc, "wall %.0fs" % (time.time() - t0))
     return rc, out
@@ -63,6 +63,8 @@ def run_copy(sid, prop, tier="quick", only=None):
     """like `run` but on a scratch worktree of /repo (so /repo itself stays untouched and several
     seeds can be tried at the same time); uses VERIF_REPO + its own VERIF_WORK"""
     d = os.path.join("/verif/seeded", sid)
+    if not os.path.isdir(d):
+        d = os.path.join("/verif/benign", sid)   # behaviour-preserving changes (false-alarm test)
     wt = "/tmp/seedrun." + sid
     sh(["git", "-C", "/repo", "worktree", "remove", "--force", wt])
     rc, out = sh(["git", "-C", "/repo", "worktree", "add", "-q", "--detach", wt, "HEAD"])
@@ -78,7 +80,7 @@ def run_copy(sid, prop, tier="quick", only=None):
     finally:
         sh(["git", "-C", "/repo", "worktree", "remove", "--force", wt])
         shutil.rmtree("/tmp/seedwork." + sid, ignore_errors=True)
-    lines = [l for l in out.splitlines() if l.startswith(("VIOLATION", "KNOWN-FINDING", "INCONCLUSIVE", "NON-REPRODUCING", "[" + prop)) or "violated" in l or " failed " in l]
+    lines = [l for l in out.splitlines() if l.startswith(("VIOLATION", "KNOWN-FINDING", "INCONCLUSIVE", "NON-REPRODUCING", "UNEXPLORED", "[" + prop)) or "violated" in l or " failed " in l]
     print("\n".join(l[:300] for l in lines[-25:]))
     print("exit", rc, "wall %.0fs" % (time.time() - t0))
 
